@@ -24,5 +24,25 @@ KeyFactsT(f, g, F, G, h, leaves, shape, leafzero, P) ==
       tree_shape |-> shape = TreeShape(n) /\ leafzero,
       leaves_in_range |-> \A i \in 1..Len(leaves) : IsPositiveFinite(leaves[i]) /\ LeqWords(SigmaMinBitsOf(n), leaves[i]) /\ LeqWords(leaves[i], SigmaMaxBits),
       representable |-> Representable(f, g, F, P) /\ \A i \in 1..n : Fits(G[i], P.wF)]
+\* The retry loop of key generation (Algorithm 5 as falcon-rust runs it) as a machine over candidates (f, g):
+\*   range test (f, g encodable) -> invertibility of f mod q -> Gram-Schmidt bound -> NTRUSolve -> range test (F, G) -> accept.
+\* verdict codes of the tap: 0 accepted, 1 f not invertible, 2 Gram-Schmidt, 3 solver failed, 4 f or g out of range, 5 F or G out of range.
+\* What TLC can decide about one candidate from (f, g) alone: the verdict the machine MUST give, or "open" where the decision
+\* depends on floating-point or solver internals (then the recorded verdict must be one of the admissible ones).
+CandidateAdmissible(f, g, verdict, gammaBits, P) ==
+  LET n == P.n
+      lim == 2 ^ (P.wfg - 1)
+      inRange == \A i \in 1..n : Abs(f[i]) < lim /\ Abs(g[i]) < lim
+      c == Ctx(Q, G1, n)
+      fn == CtxFwd(c, ReduceSeq(f, Q))
+      invertible == \A i \in 1..n : fn[i] # 0
+      firstNorm == NormSq(f) + NormSq(g)
+      \* 1.3689 * 12289 = 16822.4121 as a double
+      boundBits == <<16592, 28058, 24536, 44460>>
+  IN IF ~inRange THEN verdict = 4
+     ELSE IF ~invertible THEN verdict = 1
+     ELSE IF firstNorm > GsBound THEN verdict = 2
+     ELSE IF verdict = 2 THEN LeqWords(boundBits, gammaBits) /\ gammaBits # boundBits     \* the second Gram-Schmidt quantity decided (float)
+     ELSE verdict \in {0, 3, 5} /\ LeqWords(gammaBits, boundBits)
 KeyFacts(f, g, F, G, h, leaves, P) == KeyFactsT(f, g, F, G, h, leaves, TreeShape(P.n), TRUE, P)
 =====================================================================
